@@ -9,14 +9,20 @@ import props
 
 def judge(res, module, insts, obs_records, wd, tag):
     """Runs a one-state-per-instance TLC judge; returns id -> {cls: detail}."""
-    pi, po = os.path.join(wd, f"{tag}.inst.ndjson"), os.path.join(wd, f"{tag}.obs.ndjson")
-    write_ndjson(pi, insts); write_ndjson(po, obs_records)
-    r = tlc(module, module + ".cfg", {"INST": pi, "OBS": po}, wd, workers=NCPU, timeout=3000)
-    res.add_tlc(r)
-    verdicts = {}
-    for iid, cls, rest in parse_verdicts(r["out"]): verdicts.setdefault(iid, {})[cls] = rest
+    # sharded over a few JVMs of bounded size (JSON parsing is single-threaded and a large universe does not fit one heap comfortably)
+    nsh = max(1, -(-len(insts) // 2500))
+    import concurrent.futures as cf
+    def one(s):
+        pi, po = os.path.join(wd, f"{tag}.inst.{s}.ndjson"), os.path.join(wd, f"{tag}.obs.{s}.ndjson")
+        write_ndjson(pi, insts[s::nsh]); write_ndjson(po, obs_records[s::nsh])
+        return tlc(module, module + ".cfg", {"INST": pi, "OBS": po}, wd, workers=max(2, NCPU // min(nsh, 4)), timeout=3000)
+    verdicts = {}; last = ""
+    with cf.ThreadPoolExecutor(min(nsh, 4)) as ex:
+        for r in ex.map(one, range(nsh)):
+            res.add_tlc(r); last = r["out"]
+            for iid, cls, rest in parse_verdicts(r["out"]): verdicts.setdefault(iid, {})[cls] = rest
     missing = [i["id"] for i in insts if i["id"] not in verdicts]
-    if missing: raise ToolError(f"{module}: no verdict for instances {missing[:8]}\n" + r["out"][-3000:])
+    if missing: raise ToolError(f"{module}: no verdict for instances {missing[:8]}\n" + last[-3000:])
     return verdicts
 
 def executable(insts, obs):
